@@ -98,3 +98,144 @@ theorem unmBlocks_cons_ok (L : Leaves) (ms : List (String × Json)) (js : List J
   · intro h; cases h
 
 end ZV.CodecJson
+
+namespace ZV.CodecJson
+open ZV ZV.Codec ZV.JsonRpc
+
+theorem stringToBigInt_showAmount (a : Int) : stringToBigInt (showAmount a) = a := by
+  simp [stringToBigInt, setString10_showAmount]
+
+theorem decHeader_mar (L : Leaves) (hL : L.WF) (h : AccountHeader) (cur : Option AccountHeader) (w : HeaderJ h) :
+    decHeader L (marHeader L h) cur = .ok (some h) := by
+  have h1 : fieldOf ahTags "address" = some .address := by decide
+  have h2 : fieldOf ahTags "hash" = some .hash := by decide
+  have h3 : fieldOf ahTags "height" = some .height := by decide
+  simp [decHeader, marHeader, ahFill, h1, h2, h3, decText_ok _ _ _ _ _ (hL.hash _ w.hash.1 w.hash.2),
+    decText_ok _ _ _ _ _ (hL.addr _ w.address.1 w.address.2), decU64_u64J _ _ w.height, bind, Except.bind,
+    pure, Except.pure]
+
+theorem decHeaders_mar (L : Leaves) (hL : L.WF) : ∀ (c : List AccountHeader) (cur : List (Option AccountHeader)),
+    (∀ h ∈ c, HeaderJ h) → decHeaders L (c.map (marHeader L)) cur = .ok (c.map some) := by
+  intro c
+  induction c with
+  | nil => intro cur _; simp [decHeaders]
+  | cons h t ih =>
+    intro cur w
+    simp [decHeaders, decHeader_mar L hL h _ (w h (by simp)), ih cur.tail (fun x hx => w x (by simp [hx])),
+      bind, Except.bind, pure, Except.pure]
+
+theorem allSome_map_some : ∀ c : List AccountHeader, allSome (c.map some) = some c := by
+  intro c
+  induction c with
+  | nil => rfl
+  | cons h t ih => simp [allSome, ih]
+
+/-- the Go type of every member: which decoder of the model stands for it -/
+def abGoType : AF → String
+  | .version | .chainIdentifier | .blockType | .height | .fusedPlasma | .difficulty | .basePlasma
+  | .totalPlasma => "uint64"
+  | .hash | .previousHash | .fromBlockHash | .changesHash => "types.Hash"
+  | .momentumAcknowledged => "types.HashHeight"
+  | .address | .toAddress => "types.Address"
+  | .amount | .nonce => "string"
+  | .tokenStandard => "types.ZenonTokenStandard"
+  | .descendantBlocks => "[]*AccountBlock"
+  | .data | .signature => "[]byte"
+  | .publicKey => "ed25519.PublicKey"
+
+def momGoType : MF → String
+  | .version | .chainIdentifier | .height | .timestamp => "uint64"
+  | .hash | .previousHash | .changesHash => "types.Hash"
+  | .data | .signature => "[]byte"
+  | .content => "MomentumContent"
+  | .publicKey => "ed25519.PublicKey"
+
+/-- members that take part in JSON: tagged, and the tag is not "-" -/
+def jsonVisible (ms : List (String × String × String)) : List (String × String) :=
+  (ms.filter (fun m => m.2.1 ≠ "" ∧ m.2.1 ≠ "-")).map (fun m => (m.2.1, m.2.2))
+
+/-- the members of an object with the ones named `k` (exactly) removed -/
+def dropMember (k : String) : Json → Json
+  | .obj ms => .obj (ms.filter (fun kv => kv.1 ≠ k))
+  | j => j
+
+/-- the body with one member at its Go zero value -/
+def zeroField : AF → Block → Block
+  | .version, ⟨b, ds⟩ => ⟨{ b with version := 0 }, ds⟩
+  | .chainIdentifier, ⟨b, ds⟩ => ⟨{ b with chainIdentifier := 0 }, ds⟩
+  | .blockType, ⟨b, ds⟩ => ⟨{ b with blockType := 0 }, ds⟩
+  | .hash, ⟨b, ds⟩ => ⟨{ b with hash := zeros Gen.HashSize }, ds⟩
+  | .previousHash, ⟨b, ds⟩ => ⟨{ b with previousHash := zeros Gen.HashSize }, ds⟩
+  | .height, ⟨b, ds⟩ => ⟨{ b with height := 0 }, ds⟩
+  | .momentumAcknowledged, ⟨b, ds⟩ => ⟨{ b with momentumAcknowledged := hhZero }, ds⟩
+  | .address, ⟨b, ds⟩ => ⟨{ b with address := zeros Gen.AddressSize }, ds⟩
+  | .toAddress, ⟨b, ds⟩ => ⟨{ b with toAddress := zeros Gen.AddressSize }, ds⟩
+  | .amount, ⟨b, ds⟩ => ⟨{ b with amount := 0 }, ds⟩
+  | .tokenStandard, ⟨b, ds⟩ => ⟨{ b with tokenStandard := zeros Gen.ZtsSize }, ds⟩
+  | .fromBlockHash, ⟨b, ds⟩ => ⟨{ b with fromBlockHash := zeros Gen.HashSize }, ds⟩
+  | .descendantBlocks, ⟨b, _⟩ => ⟨b, []⟩
+  | .data, ⟨b, ds⟩ => ⟨{ b with data := [] }, ds⟩
+  | .fusedPlasma, ⟨b, ds⟩ => ⟨{ b with fusedPlasma := 0 }, ds⟩
+  | .difficulty, ⟨b, ds⟩ => ⟨{ b with difficulty := 0 }, ds⟩
+  | .nonce, ⟨b, ds⟩ => ⟨{ b with nonce := zeros Gen.NonceSize }, ds⟩
+  | .basePlasma, ⟨b, ds⟩ => ⟨{ b with basePlasma := 0 }, ds⟩
+  | .totalPlasma, ⟨b, ds⟩ => ⟨{ b with totalPlasma := 0 }, ds⟩
+  | .changesHash, ⟨b, ds⟩ => ⟨{ b with changesHash := zeros Gen.HashSize }, ds⟩
+  | .publicKey, ⟨b, ds⟩ => ⟨{ b with publicKey := [] }, ds⟩
+  | .signature, ⟨b, ds⟩ => ⟨{ b with signature := [] }, ds⟩
+
+/-- the Go member behind a JSON member of the block -/
+def goFieldOf : AF → String
+  | .version => "Version" | .chainIdentifier => "ChainIdentifier" | .blockType => "BlockType" | .hash => "Hash"
+  | .previousHash => "PreviousHash" | .height => "Height" | .momentumAcknowledged => "MomentumAcknowledged"
+  | .address => "Address" | .toAddress => "ToAddress" | .amount => "Amount" | .tokenStandard => "TokenStandard"
+  | .fromBlockHash => "FromBlockHash" | .descendantBlocks => "DescendantBlocks" | .data => "Data"
+  | .fusedPlasma => "FusedPlasma" | .difficulty => "Difficulty" | .nonce => "Nonce" | .basePlasma => "BasePlasma"
+  | .totalPlasma => "TotalPlasma" | .changesHash => "ChangesHash" | .publicKey => "PublicKey"
+  | .signature => "Signature"
+
+/-- hex everywhere: a `Leaves` that satisfies `Leaves.WF` (non-vacuity witness; bech32 itself is not modelled) -/
+def toyLeaves : Leaves := {
+  addrText := hexHashText, addrParse := fun s => ofHexChars s.toList,
+  ztsText := hexHashText, ztsParse := fun s => ofHexChars s.toList,
+  b64Text := hexHashText, b64Parse := fun s => ofHexChars s.toList,
+  hashText := hexHashText, hashParse := hexHashParse }
+
+theorem toyLeaves_wf : toyLeaves.WF := by
+  constructor
+  · intro x hx _; simp [toyLeaves, hexHashText, ofHexChars_hexChars x hx]
+  · intro x hx _; simp [toyLeaves, hexHashText, ofHexChars_hexChars x hx]
+  · intro x hx; simp [toyLeaves, hexHashText, ofHexChars_hexChars x hx]
+  · intro x hx hl
+    have : (hexChars x).length = 2 * x.length := by
+      clear hx hl
+      induction x with
+      | nil => rfl
+      | cons a t ih => simp [hexChars, List.flatMap_cons] at ih ⊢; omega
+    simp [toyLeaves, hexHashText, hexHashParse, ofHexChars_hexChars x hx, this, hl]
+
+/-- what one member does to `aux` (the body of the loop of `unmMembers`) -/
+def stepMember (L : Leaves) (f : Option AF) (v : Json) (a : Aux) : Except Err Aux :=
+  match f with
+  | none => .ok a
+  | some .descendantBlocks =>
+    match v with
+    | .null => .ok { a with desc := [] }
+    | .arr js => do
+        let r ← unmBlocks L js
+        pure { a with desc := r.1, nilSeen := a.nilSeen || r.2 }
+    | _ => .error .typeMismatch
+  | some f => setLeaf L f v a
+
+theorem unmMembers_cons (L : Leaves) (k : String) (v : Json) (rest : List (String × Json)) (a : Aux) :
+    unmMembers L ((k, v) :: rest) a = (stepMember L (fieldOf abTags k) v a).bind (unmMembers L rest) := by
+  unfold unmMembers stepMember
+  cases fieldOf abTags k with
+  | none => rfl
+  | some f =>
+    cases f <;> first
+      | rfl
+      | (cases v <;> first | rfl | (simp only [bind, Except.bind, pure, Except.pure]; cases unmBlocks L _ <;> rfl))
+      | (simp only [bind, Except.bind]; cases setLeaf L _ v a <;> rfl)
+
+end ZV.CodecJson
